@@ -357,6 +357,8 @@ func runC01(c *kit.Ctx) {
 	exceptionTableOracle(c)
 	discoverersDetachOverlaps(c)
 	establisherHandoff(c)
+	failedAttemptRelooksUp(c)
+	regionAttributesAreImmutable(c)
 
 	// ---- R3 ---------------------------------------------------------------
 	c.StartRule("R3", "both lookup validators check table and key < stop", 6)
